@@ -2,4 +2,20 @@
 
 
 def register(check, TIERB_NOTE):
-    pass
+    check("C15", "exploration",
+          "Seeded search over operation histories on every generated ordered map of the corpus (single-key, multi-key, nested; direct methods and "
+          "parent helpers), each call checked against an insertion-ordered unique-key reference model, with rejected operations (duplicate / nil key, "
+          "nil element, nil receiver) injected as faults that must leave the map unchanged, returned slices mutated to prove they are copies, and "
+          "order compared after JSON, gNMI and DeepCopy round trips. The ordered-map code is regenerated from YANG by the working tree's own generator "
+          "at check time, so a change to the templates is what gets tested. Exploration is the right level: the property quantifies over histories and "
+          "the state space per map is small enough that thousands of short histories revisit every transition many times.",
+          "DESIGN.md §5 (Tier B, C15)", TIERB_NOTE,
+          "deterministic simulation: seeded operation histories vs executable reference model, rejected-operation injection, ddmin-minimised replay")
+    check("C34", "exploration",
+          "Seeded search over helper-call histories on every keyed list of the corpus (string, uint32, int64, enum, identityref, union, bool, multi-key "
+          "incl. enum+union+int8 keys; plain-map form of ordered lists too), each call checked against a key-tuple -> entry-identity map model: "
+          "New/Append reject duplicates (Append also nil keys) without changing the map, GetOrCreate idempotent, Get never creates, Rename moves the "
+          "entry and rewrites its key leaves; after every call every entry's key leaves are compared with its map key by the harness's own walker. "
+          "Helpers are regenerated from YANG by the working tree's generator at check time.",
+          "DESIGN.md §5 (Tier B, C34)", TIERB_NOTE,
+          "deterministic simulation: seeded operation histories vs executable reference model, rejected-operation injection, ddmin-minimised replay")
